@@ -58,6 +58,25 @@ func runC08(t *testing.T, rc *core.RunCtx) {
 		all, eff := w.all, w.eff
 		// per-transition judgement at its end
 		w.onTxEnd = append(w.onTxEnd, func(tx *txRec) {
+			// whatever is still called after a fault must not be a final handler
+			// looking at a state that has been rolled back under its feet (final
+			// handlers see the applied target)
+			faultAt := -1
+			for i, ci := range tx.calls {
+				c := w.calls[ci]
+				if faultAt < 0 {
+					if c.behav == hbPanicErr || c.behav == hbPanicVal {
+						faultAt = i
+					}
+					continue
+				}
+				kind, a, _ := classifyHandler(c.name, all)
+				if (kind == "state" && !has(c.active, a)) || (kind == "end" && has(c.active, a)) {
+					f := w.calls[tx.calls[faultAt]]
+					s.Fail("C08/final-after-rollback", "%s (binding %d) panicked in %s%v; %s (binding %d) was still called afterwards and saw %v", f.name, f.binding, tx.typ, tx.called, c.name, c.binding, c.active)
+					return
+				}
+			}
 			// parity and monotonicity hold whatever happened
 			for i, name := range all {
 				if (tx.machAtEnd[i]%2 == 1) != has(tx.activeEnd, name) {
@@ -251,6 +270,16 @@ func runC08(t *testing.T, rc *core.RunCtx) {
 		s.Run()
 		if s.TimedOut && !s.Failed() {
 			s.Fail("C08/blocked", "calls still in flight after %v: %v", s.MaxSim, s.InFlight)
+		}
+		// every clause above is judged when a transition ends: one that never
+		// reports its end would escape them all
+		if !s.Failed() && !s.StepLimited && !s.TimedOut {
+			for _, tx := range w.txs {
+				if tx.nStart > 0 && tx.nEnd == 0 {
+					s.Fail("C08/transition-never-ended", "%s%v (faulted=%v) started and never reported its end to the tracer", tx.typ, tx.called, tx.faulted)
+					break
+				}
+			}
 		}
 	})
 }
